@@ -23,7 +23,9 @@ import (
 	"github.com/libp2p/go-libp2p/core/crypto"
 
 	ipfslog "berty.tech/go-ipfs-log"
+	"berty.tech/go-ipfs-log/accesscontroller"
 	"berty.tech/go-ipfs-log/entry"
+	idp "berty.tech/go-ipfs-log/identityprovider"
 	"berty.tech/go-ipfs-log/iface"
 	"berty.tech/go-ipfs-log/io/cbor"
 	"berty.tech/go-ipfs-log/keystore"
@@ -379,16 +381,16 @@ type c11Run struct {
 	delay   int
 	seed    int64
 	// what to execute; nil = entry.FetchAll(starts)
-	load func(ctx context.Context, r *c11Run) error
+	load       func(ctx context.Context, r *c11Run) error
 	ignoreGets map[cid.Cid]bool
 	// outputs
-	events  []c11Event
-	results []cid.Cid
-	gets    []cid.Cid
-	hung    bool
-	skipped bool // not executed: too many earlier runs hung
+	events   []c11Event
+	results  []cid.Cid
+	gets     []cid.Cid
+	hung     bool
+	skipped  bool // not executed: too many earlier runs hung
 	panicked string
-	wall    time.Duration
+	wall     time.Duration
 }
 
 func (r *c11Run) retrievable(c cid.Cid) bool {
@@ -872,6 +874,60 @@ func c11Corpus(rng *rand.Rand, tier string, prefix string) []*c11Dag {
 		d.join(0, 2)
 		add(d)
 	}
+	{
+		// entries with an EMPTY payload are legal (Append accepts them) and must load like any other
+		d := c11NewDag("emptypayload5", []string{"A"})
+		for _, p := range []string{"one", "two", "", "four", ""} {
+			d.append(0, p, 2)
+		}
+		add(d)
+	}
+	{
+		// a merge entry (two predecessors) right at the limit boundary, older than what is kept
+		d := c11NewDag("mergeatlimit4", []string{"A", "B"})
+		d.append(0, "x1", 1)
+		d.append(1, "y1", 1)
+		d.join(0, 1)
+		d.append(0, "j", 1)
+		d.append(0, "k", 1)
+		add(d)
+	}
+	{
+		d := c11NewDag("mergeatlimit7", []string{"A", "B", "C"})
+		d.append(0, "x1", 1)
+		d.append(1, "y1", 1)
+		d.append(2, "z1", 1)
+		d.append(2, "z2", 1)
+		d.join(0, 1)
+		d.join(0, 2)
+		d.append(0, "j", 1)
+		d.append(0, "k", 2)
+		d.append(0, "m", 1)
+		add(d)
+	}
+	{
+		// clock gaps: appends refused by the access controller tick the clock without adding an entry
+		d := c11NewDag("clockgap4", []string{"A"})
+		gate := &c11GateAC{}
+		l, err := ipfslog.NewLog(d.api, d.env.identity("A"), &ipfslog.LogOptions{ID: "X", IO: c11IO(), AccessController: gate})
+		if err != nil {
+			panic(err)
+		}
+		d.logs[0] = l
+		d.append(0, "a", 1)
+		d.append(0, "b", 1)
+		d.append(0, "c", 1)
+		gate.deny = true
+		for i := 0; i < 2; i++ {
+			if _, err := l.Append(context.Background(), []byte("refused"), nil); err == nil {
+				panic("gate did not refuse")
+			}
+		}
+		gate.deny = false
+		d.append(0, "f", 1)
+		d.append(0, "g", 2)
+		add(d)
+	}
 	nrand := 6
 	if tier == "thorough" {
 		nrand = 24
@@ -896,6 +952,16 @@ func c11Corpus(rng *rand.Rand, tier string, prefix string) []*c11Dag {
 		add(d)
 	}
 	return dags
+}
+
+// c11GateAC refuses every append while deny is set
+type c11GateAC struct{ deny bool }
+
+func (g *c11GateAC) CanAppend(accesscontroller.LogEntry, idp.Interface, accesscontroller.CanAppendAdditionalContext) error {
+	if g.deny {
+		return fmt.Errorf("refused by gate")
+	}
+	return nil
 }
 
 // ---------------------------------------------------------------------------------------------
